@@ -5,7 +5,7 @@ BASE = ('rustc type/borrow checking and MIR construction (incl. drop elaboration
         'semantics of core functions as frozen in mmcheck/models.py; user types contain no unsafe code that '
         'reaches into the container')
 
-ALLP = ['C01', 'C02', 'C03', 'C04', 'C05', 'C06', 'C07', 'C11', 'C12', 'C17', 'C18']
+ALLP = ['C%02d' % i for i in range(1, 21) if i != 19]
 
 ENGINES = [
     {'name': 'mmdrv', 'path': 'driver/', 'serves_properties': ALLP,
@@ -15,7 +15,7 @@ ENGINES = [
      'kind_free_text': 'abstract interpreter over the exported MIR: difference-bound zone over usize terms, slot '
                        'exceptions (holes / extras / ranges) per container, inlining of local callees, models of '
                        'core, unwinding into cleanup blocks, loop-head joins with widening'},
-    {'name': 'specs', 'path': 'mmcheck/specs.py', 'serves_properties': ['C01', 'C07', 'C11', 'C12', 'C18', 'C03', 'C05'],
+    {'name': 'specs', 'path': 'mmcheck/specs.py', 'serves_properties': ['C01', 'C03', 'C05', 'C07', 'C08', 'C09', 'C10', 'C11', 'C12', 'C13', 'C14', 'C15', 'C16', 'C18', 'C20'],
      'kind_free_text': 'outcome schemas derived from the property statements, evaluated on every normal-return path '
                        'the interpreter produces for the anchor roots: path classes (key found at slot h / appended / '
                        'full-prefix miss) are read off the path itself (answers of the user ==, slot events), then '
@@ -153,5 +153,102 @@ TEXT.update({
                  '(C02/C17 rules). get_disjoint_unchecked_mut is the body the safe method runs after its precheck. '
                  + PARTIAL,
         'note': BASE + '; the contract is the only assumption and is injected at exactly one point',
+    },
+})
+
+TEXT.update({
+    'C08': {
+        'engine': SCHEMA,
+        'technique': 'abstract interpretation of MIR: membership polarity of the lazy set iterators (next and fold), composition of union/symmetric difference, affine size hints, quantifier schemas of is_subset/is_superset/is_disjoint',
+        'level': 'Partial (level other). Difference/DifferenceRef/Intersection: next() yields a reference to an element '
+                 'of the LEFT operand only after that element was looked up in the right operand with the required '
+                 'outcome (complete miss / hit), skips only elements with the opposite outcome, and leaves the cursor '
+                 'right behind the yielded element; fold() passes exactly those elements to the closure, once each '
+                 '(sibling agreement with next); size_hint is evaluated symbolically as an affine expression and must '
+                 'satisfy lower <= max(0, remaining - other.len()) resp. 0, upper >= remaining resp. '
+                 'min(remaining, other.len()); union()/symmetric_difference() must be the stated chain of parts over '
+                 'the full prefixes; Union/SymmetricDifference methods are thin delegations to the core Chain; '
+                 'is_subset/is_superset/is_disjoint may return true only after every element of the right operand was '
+                 'examined with the right lookup outcome and false only on a witness (or, for is_subset, when '
+                 'len(self) > len(other) is entailed); operands are never modified; unknown Iterator overrides on these '
+                 'types are reported as unproven. ' + PARTIAL,
+        'note': BASE + '; semantics of core::iter::Chain/find/fold/all/any as modelled',
+    },
+    'C09': {
+        'engine': SCHEMA,
+        'technique': 'abstract interpretation of MIR: cursor schemas of the borrowing iterators (projection, advance-by-one, exact counts)',
+        'level': 'Partial (level other). iter/iter_mut/keys/values/values_mut/Set::iter/&-into_iter create a cursor '
+                 'over exactly [0,len); next() of Iter/IterMut/Keys/Values/ValuesMut/SetIter returns the stated '
+                 'projection of the first remaining slot and advances the cursor by exactly one, or returns None only '
+                 'when nothing remains and then leaves the iterator unchanged (fused); size_hint/len/count equal the '
+                 'number of remaining elements exactly; clone() continues at the same position; item references point '
+                 'into the slot itself (so writes through iter_mut/values_mut land where lookups read). Unknown '
+                 'Iterator overrides on these types are reported as unproven. Not decided: core\'s slice iterator '
+                 '(trusted: each element once, in order).',
+        'note': BASE,
+    },
+    'C10': {
+        'engine': SCHEMA,
+        'technique': 'abstract interpretation of MIR: pop/drain schemas of the consuming iterators',
+        'level': 'Partial (level other). into_iter/into_keys/into_values hand the unchanged container to the iterator; '
+                 'next() of IntoIter/IntoKeys/IntoValues/SetIntoIter moves out exactly the last live element, '
+                 'decrements len by one and returns the stated projection, or returns None only when len == 0, changing '
+                 'nothing; drain() returns a cursor over exactly [0,len) and leaves len == 0 at once; Drain/SetDrain::next '
+                 'move exactly the yielded element out and advance by one; exact size_hint/len/count. The remaining '
+                 'elements are destroyed exactly once by Map::drop / Drain::drop (C02 rules). Unknown Iterator '
+                 'overrides are reported as unproven.',
+        'note': BASE,
+    },
+    'C13': {
+        'engine': SCHEMA,
+        'technique': 'census of aliasing primitives + who-may-call + must-pass-through on the interpreted paths of get_disjoint_mut',
+        'level': 'Partial (level other). No raw pointer, transmute, pointer cast or unmodelled unsafe primitive exists '
+                 'in the crate (the returned &mut V are carved by split_at_mut, so the borrow checker certifies '
+                 'disjointness); get_disjoint_unchecked_mut is called only from get_disjoint_mut; on every path of '
+                 'get_disjoint_mut that touches the container the pre-check loop ran to its end and no comparison of two '
+                 'request keys answered "equal" (those paths panic); all unchecked accesses of the body are discharged '
+                 '(O1/O2). NOT decided: that the pre-check compares ALL pairs, and the position/value agreement with get_mut.',
+        'note': BASE,
+    },
+    'C14': {
+        'engine': SCHEMA,
+        'technique': 'abstract interpretation of MIR: what each truth value of eq may rest on (zone entailment of the lengths, lookup outcomes, value comparisons)',
+        'level': 'Partial (level other). Map::eq / Set::eq: true is returned only on paths where len(self) == len(other) '
+                 'is entailed and every element of one operand was looked up in the other, found, and (maps) its value '
+                 'compared equal with the value stored under the matching key; false only on a witness (key missing from '
+                 'the other operand / unequal values) or when the lengths are not equal; neither operand is modified. '
+                 'Reflexivity/symmetry follow from key uniqueness and a lawful Eq (not decided).',
+        'note': BASE,
+    },
+    'C15': {
+        'engine': SCHEMA,
+        'technique': 'abstract interpretation of MIR: per-element clone schema and result schema of Map::clone / Set::clone',
+        'level': 'Partial (level other). The clone is a fresh container built inside the call (no shared storage is '
+                 'possible by type), has the length of the original, each loop iteration clones the key and the value '
+                 'of one source slot exactly once and writes them to the slot with the same index, and the original is '
+                 'not modified. That the clone compares equal follows from a lawful Clone/Eq (not decided).',
+        'note': BASE + '; the tuple CloneShim calls K::clone and V::clone once each (compiler generated)',
+    },
+    'C16': {
+        'engine': SCHEMA,
+        'technique': 'abstract interpretation of MIR: per-item schema of the bulk constructors (one key-keeping insert per pulled item)',
+        'level': 'Partial (level other). FromIterator (Map, Set), From<[_; N]>, Extend<T>/Extend<&T>: the result is built '
+                 'from new() (or self), the source is turned into an iterator once, each loop iteration advances the '
+                 'source exactly once and performs exactly one insertion of that very item: appended after a full miss, '
+                 'or (repeated key) the first key object is kept, the new value stored, no capacity consumed. Not '
+                 'decided: that a panic occurs exactly when more than N distinct keys arrive (follows from C03 + C05).',
+        'note': BASE,
+    },
+    'C20': {
+        'engine': SCHEMA,
+        'technique': 'abstract interpretation of the MIR of the serde feature build: serializer/visitor call discipline and error propagation',
+        'level': 'Partial (level other; configuration --features serde). Serialize: the serializer is told Some(len()) '
+                 'exactly once, exactly one entry/element consisting of the key (and value) of one stored slot is '
+                 'emitted per element of the full prefix, every serializer error is propagated, the result is that of '
+                 'end(). Visitor: builds from new(), one key-keeping insert per entry pulled, returns Ok only after the '
+                 'source itself reported the end, propagates access errors, refuses input by itself only when the '
+                 'announced length provably exceeds N. Deserialize hands the visitor over once. NOT decided: equality '
+                 'after the round trip (depends on the wire format).',
+        'note': BASE + '; serde traits are user code (arbitrary results, may unwind)',
     },
 })
